@@ -45,10 +45,12 @@ func (dw *defaultWalkerPipeline) worker(ctx context.Context, wg *sync.WaitGroup,
 		case <-ctx.Done():
 			return
 		case root, ok := <-roots:
+			verifPoint("walk.recv")
 			if !ok {
 				return
 			}
 			if err := dw.walkNode(root, callback); err != nil {
+				verifPoint("walk.err")
 				errc <- err
 			}
 		}
